@@ -44,6 +44,7 @@ typedef struct {
   int      acceptable;  /* classified at injection time (prov monitor) */
   int      txidx;       /* transmission it answers (-1 if none) */
   int64_t  t_read;      /* when the library read it from the socket (0 = never) */
+  int      srv_cookie;  /* carries a server cookie */
   int      epoch_read;  /* configuration epoch at that time */
 } sim_pktinfo_t;
 
@@ -254,6 +255,9 @@ static sim_cfg_t sim_cfg;
 static unsigned app_srv_ever_mask; /* servers ever configured in this case */
 static int      ck_epoch;  /* configuration epoch (server-list changes, completed reinits): cache monitor */
 static int      app_dnsrec_flags_from_aiflags; /* cache profile: RD/CD of raw dnsrec requests come from ai_flags */
+static void (*sim_read_hook)(int fd, uint32_t serial); /* library read a packet from a socket */
+static uint8_t  prov_addr_override[SIM_MAXPKT][16];
+static uint8_t  prov_addr_override_set[SIM_MAXPKT];
 static vh_rng_t sim_rng;   /* scheduler / network randomness */
 static vh_rng_t seg_rng;   /* transport chopping only (so that A/B runs draw the same sim_rng sequence) */
 static int      sim_no_subms_jitter; /* fixed server delays (A/B differential) */
@@ -820,7 +824,9 @@ static ares_ssize_t vs_recvfrom(ares_socket_t s, void *buf, size_t len, int flag
     if (from != NULL && fromlen != NULL) {
       struct sockaddr_storage ss;
       ares_socklen_t          l;
-      if (p->from_srv >= 0) {
+      if (p->serial && p->serial <= SIM_MAXPKT && prov_addr_override_set[p->serial - 1]) {
+        sim_addr_to_sockaddr(v->family, prov_addr_override[p->serial - 1], 53, &ss, &l);
+      } else if (p->from_srv >= 0) {
         sim_addr_to_sockaddr(sim_srv[p->from_srv].family, sim_srv[p->from_srv].addr, sim_srv[p->from_srv].udp_port, &ss,
                              &l);
       } else {
@@ -846,6 +852,9 @@ static ares_ssize_t vs_recvfrom(ares_socket_t s, void *buf, size_t len, int flag
     if (p->serial && p->serial <= sim_npkt && sim_pktinfo[p->serial - 1].t_read == 0) {
       sim_pktinfo[p->serial - 1].t_read     = sim_now_us;
       sim_pktinfo[p->serial - 1].epoch_read = ck_epoch;
+      if (sim_read_hook) {
+        sim_read_hook((int)s, p->serial);
+      }
     }
     sim_pkt_free(p);
     return (ares_ssize_t)n;
@@ -868,6 +877,9 @@ static ares_ssize_t vs_recvfrom(ares_socket_t s, void *buf, size_t len, int flag
       if (p->serial && p->serial <= sim_npkt && sim_pktinfo[p->serial - 1].t_read == 0) {
         sim_pktinfo[p->serial - 1].t_read     = sim_now_us;
         sim_pktinfo[p->serial - 1].epoch_read = ck_epoch;
+        if (sim_read_hook) {
+          sim_read_hook((int)s, p->serial);
+        }
       }
       v->rx_head = p->next;
       if (v->rx_head == NULL) {
